@@ -40,7 +40,9 @@ def gen_content(rng, own_mod, pool, wild, focus=False):
     else:
         kind = rng.weighted([("leaf", 22), ("leafstr", 10), ("user", 26), ("passer", 14), ("iface", 6),
                              ("impl", 6), ("illtyped", 8), ("noclass", 6), ("selfimp", 3), ("cyc_iface", 4),
-                             ("generic", 4), ("missing_export", 4), ("lib_iface_class", 4), ("bounded", 2)] +
+                             ("generic", 4), ("missing_export", 4), ("lib_iface_class", 4), ("bounded", 2),
+                             ("enum", 3), ("enumuser", 3), ("fields", 3), ("fielduser", 3), ("locals", 3),
+                             ("iface2", 3), ("bounded2", 3), ("impl2", 2), ("nameuser", 2)] +
                             ([("unparsable", 14), ("unparsable2", 6)] if wild else []))
     dep = rng.pick(others) if others else own_mod
     dep2 = rng.pick(others) if others else own_mod
@@ -63,6 +65,8 @@ def gen_content(rng, own_mod, pool, wild, focus=False):
         # module's location) by the check of every module that extends {K}
         t = (f"class {K}Base(val v: int) {{ function mk(): {K}Base = {K}Base.init(0) }}\n"
              f"interface {K} : {K}Base {{ method get(): int }}")
+    elif kind in DECL_USE_TEXT:
+        t = DECL_USE_TEXT[kind](K, D, dep)
     elif kind == "bounded":
         t = (f"import {{ {D} }} from {dep}\nclass {K}(val v: int) {{ function mk(): {K} = {K}.init(0) "
              f"method get(): int = this.v function <T : {D}> same(t: T): T = t }}")
@@ -126,6 +130,133 @@ class Hist:
         return sorted(ns)
 
 
+_STD = "function mk(): {K} = {K}.init(0) method get(): int = this.v"
+# declaration kinds and the constructs that USE a declared name from another module (one per identifier position:
+# interface member + its parameter, type-parameter bound, class member, field, enum variant, class name, local)
+DECL_USE_TEXT = {
+    "enum": lambda K, D, dep: f"class {K}(Foo(int), Bar) {{ function mk(): {K} = {K}.Foo(1) method get(): int = match this {{ Foo(x) -> x, Bar -> 0 }} }}",
+    "enumuser": lambda K, D, dep: (f"import {{ {D} }} from {dep}\nclass {K}(val v: int) {{ " + _STD.replace("{K}", K) +
+                                   f" function pick(): {D} = {D}.Bar() function sel(e: {D}): int = match e {{ Foo(x) -> x, Bar -> 1 }} }}"),
+    "fields": lambda K, D, dep: f"class {K}(val v: int, val w2: int) {{ function mk(): {K} = {K}.init(0, 1) method get(): int = this.v }}",
+    "fielduser": lambda K, D, dep: (f"import {{ {D} }} from {dep}\nclass {K}(val v: int) {{ " + _STD.replace("{K}", K) +
+                                    f" function fld(): int = {D}.mk().w2 }}"),
+    "locals": lambda K, D, dep: (f"class {K}(val v: int) {{ " + _STD.replace("{K}", K) +
+                                 " function calc(prm: int): int = { let loc = prm + 1; loc } }"),
+    "iface2": lambda K, D, dep: f"interface {K} {{ method exp(prm: int): Str }}",
+    "bounded2": lambda K, D, dep: (f"import {{ {D} }} from {dep}\nclass {K}(val v: int) {{ " + _STD.replace("{K}", K) +
+                                   f" function <T : {D}> dump(e: T): Str = e.exp(2) }}"),
+    "impl2": lambda K, D, dep: f"import {{ {D} }} from {dep}\nclass {K}(val v: int) : {D} {{ function mk(): {K} = {K}.init(0) method exp(prm: int): Str = \"lit\" }}",
+    "nameuser": lambda K, D, dep: (f"import {{ {D} }} from {dep}\nclass {K}(val v: int) {{ " + _STD.replace("{K}", K) +
+                                   f" function take(prm: {D}): int = 0 }}"),
+}
+
+# identifiers of the templates; each can be stretched to >= 16 bytes (heap-interned, compared by allocation id and
+# subject to the string GC that runs after every recheck) consistently over a whole history
+TOKENS = ["get", "mk", "pass", "deep", "use1", "bad", "same", "two", "v", "w2", "T", "Foo", "Bar", "prm", "loc", "exp",
+          "dump", "pick", "sel", "fld", "calc", "take", "e", "x"] + [cls_of(m) for m in NAMES] + \
+         [cls_of(m) + sfx for m in NAMES for sfx in ("Base", "Extra")] + ["m" + cls_of(m) for m in NAMES]
+
+
+def lengthen(h, rng):
+    """Rewrites every text of the history: each identifier of TOKENS becomes, with a per-history probability, a name
+    of >= 16 bytes (module paths after `from` keep their names: they are file names)."""
+    import re
+    p = rng.pick([0, 0, 25, 50, 80])
+    if p == 0:
+        return h
+    table = {t: t + "WithAnIdentifierOver15Bytes"[:max(16 - len(t), 13)] for t in TOKENS if rng.below(100) < p}
+    if not table:
+        return h
+    pat = re.compile(r"(?<!\w)(" + "|".join(sorted(map(re.escape, table), key=len, reverse=True)) + r")(?!\w)")
+
+    def conv_line(line):
+        if line.startswith("import"):
+            i = line.find(" from ")
+            if i >= 0:
+                return pat.sub(lambda m: table[m.group(1)], line[:i]) + line[i:]
+        # string literals of the templates never contain a token
+        return pat.sub(lambda m: table[m.group(1)], line)
+
+    def conv(t):
+        return "\n".join(conv_line(l) for l in t.split("\n"))
+    h.init = {m: conv(t) for m, t in h.init.items()}
+    h.ops = [(k, [(m, conv(t)) for m, t in v]) if k == "upd" else (k, v) for k, v in h.ops]
+    h.long_names = len(table)
+    return h
+
+
+LATE_KINDS = [("iface2", "bounded2"), ("iface2", "impl2"), ("iface", "bounded"), ("iface", "impl"), ("leaf", "user"),
+              ("fields", "fielduser"), ("enum", "enumuser"), ("leaf", "nameuser"), ("lib_iface_class", "impl"),
+              ("leaf", "passer")]
+
+
+def gen_latebind(rng, wild):
+    """"late binding" stream: a declaration (interface member, class member, field, variant, class name, bound) is
+    checked, then one to four operations elsewhere (each ends with a recheck and a string-GC round in which the
+    declared names are referenced from nowhere else), and only then another module starts to use the name."""
+    h = Hist("latebind")
+    decl, filler, user, spare = rng.shuffle(NAMES[:5])[:4]
+    pool = [decl, filler, user]
+    dk, uk = rng.pick(LATE_KINDS)
+
+    def text(kind, own, dep):
+        K, D = cls_of(own), cls_of(dep)
+        if kind in DECL_USE_TEXT:
+            return DECL_USE_TEXT[kind](K, D, dep)
+        class R:      # fixed choices for gen_content: force kind and dependency
+            def __init__(self, r): self.r = r
+            def weighted(self, pairs): return kind if any(k == kind for k, _ in pairs) else self.r.weighted(pairs)
+            def pick(self, xs): return dep if dep in xs else self.r.pick(xs)
+            def below(self, n): return self.r.below(n)
+            def chance(self, a, b): return False
+            def range(self, a, b): return self.r.range(a, b)
+        return gen_content(R(rng), own, [own, dep], False)[0]
+    leafish = lambda m: text(rng.pick(["leaf", "locals", "illtyped"]), m, m)
+    files = {decl: text(dk, decl, decl), filler: leafish(filler)}
+    if rng.chance(1, 2):
+        files[user] = leafish(user)
+    h.init = dict(files)
+
+    def push(op):
+        h.ops.append(op); apply_fs(files, op)
+    for _ in range(rng.range(1, 4)):           # operations elsewhere
+        o = rng.below(5)
+        if o == 0:
+            push(("upd", [(filler, leafish(filler))]))
+        elif o == 1:
+            push(("upd", [(spare, leafish(spare))]))
+        elif o == 2 and spare in files:
+            push(("rem", [spare]))
+        elif o == 3:
+            a = spare if spare in files else filler
+            b = filler if a == spare else spare
+            push(("ren", [(a, b)]))
+            if b == spare:
+                filler, spare = spare, filler
+        else:
+            push(("upd", [(filler, gen_content(rng, filler, [filler, spare], wild)[0])]))
+    intro = rng.below(3)                        # the first use of the declared names from another module
+    utext = text(uk, user, decl)
+    if intro == 0 or user not in files:
+        push(("upd", [(user, utext)]))
+    elif intro == 1:
+        push(("upd", [(spare, text(uk, user, decl))])); push(("rem", [user])); push(("ren", [(spare, user)]))
+    else:
+        push(("upd", [(user, utext), (filler, leafish(filler))]))
+    for _ in range(rng.range(0, 3)):            # afterwards: anything, including edits of the declaration
+        m = rng.pick([decl, filler, user])
+        o = rng.below(4)
+        if o == 0:
+            push(("upd", [(m, text(dk, decl, decl) if m == decl else gen_content(rng, m, pool, wild)[0])]))
+        elif o == 1:
+            push(("rem", [m]))
+        elif o == 2:
+            push(("ren", [(m, spare)]))
+        else:
+            push(("upd", [(user, utext)]))
+    return h
+
+
 def has_toplevel(text):
     return "class " in text or "interface " in text
 
@@ -180,7 +311,7 @@ def gen_history(rng, nops, wild, focus=False):
         else:
             continue
         apply_fs(files, h.ops[-1])
-    return h
+    return lengthen(h, rng)
 
 
 def apply_fs(files, op):
@@ -259,7 +390,7 @@ def parse_obs(s):
     if s.startswith("panic") or s in ("no-state", "<missing>") or s.startswith("<"):
         return None
     for part in s.split(" "):
-        if not part:
+        if not part or part.startswith("#"):
             continue
         n, v = part.split("=", 1)
         full = None
@@ -379,6 +510,12 @@ def judge(tb, h, impl, idx, model):
                     orc.append((i, f"module {n} is not a source but the server still holds {len(v[1])} diagnostics for it"))
                 if n not in files and v[0]:
                     orc.append((i, f"module {n} is not a file but is still a key of parsed/string_sources/checked_modules (bits {v[0]})"))
+        nm = [p for p in ia.split(" ") if p.startswith("#names=")]
+        if nm and not nm[0].startswith("#names=ok"):
+            f = nm[0].split(":")
+            ex = bytes.fromhex(f[-1]).decode("utf-8", "replace") if len(f) > 4 and f[-1] != "-" else "?"
+            tie.append((i, f"hypothesis NamesStable broken: of {f[1]} heap strings the retained state holds, {f[2] if len(f) > 2 else ''} "
+                           f"{f[3] if len(f) > 3 else ''} (e.g. `{ex}`): re-interning the text no longer gives the handle the state holds"))
         if model is not None:
             mo = parse_obs(model[i + 1])
             if mo is None:
@@ -501,7 +638,7 @@ OUTSIDE = "!"
 def build_cli():
     with common.Lock("cargo-cli"):
         rc, out = common.sh(["cargo", "build", "--offline", "-p", "samlang-cli", "--target-dir", CLI_TARGET],
-                            cwd=common.REPO, timeout=1800)
+                            cwd=common.REPO, timeout=1800, env={"CARGO_PROFILE_DEV_DEBUG": "0"})
     if rc != 0:
         raise common.BuildError("cargo build -p samlang-cli (LSP binary)", out[-4000:])
     return os.path.join(CLI_TARGET, "debug", "samlang-cli")
@@ -872,8 +1009,12 @@ def find_oracle_failure(ctx, tb, label):
     with the shrunk concrete history if one is found that matches no open finding."""
     rng = ctx.rng.fork()
     for _ in range(ctx.scale(4, 20)):
-        hs = [gen_history(rng.fork(), rng.range(2, 10), rng.chance(1, 2), rng.chance(1, 2)) for _ in range(150)]
-        for h, (orc, _) in zip(hs, run_hists(tb, hs, with_model=False)):
+        hs = [gen_history(rng.fork(), rng.range(2, 10), rng.chance(1, 2), rng.chance(1, 2)) for _ in range(110)]
+        hs += [lengthen(gen_latebind(r3, rng.chance(1, 2)), r3) for r3 in (rng.fork() for _ in range(40))]
+        res = list(zip(hs, run_hists(tb, hs, with_model=False)))
+        # prefer a witness whose failure is a difference of diagnostics over one where the server call itself failed
+        res.sort(key=lambda x: 0 if (x[1][0] and not any("call failed" in m for _, m in x[1][0])) else 1)
+        for h, (orc, _) in res:
             if orc and classify(tb, h) is None:
                 small = shrink(tb, h, lambda g: bool(run_hists(tb, [g], with_model=False)[0][0]))
                 o2, _ = run_hists(tb, [small], with_model=False)[0]
@@ -945,7 +1086,7 @@ def run(ctx):
     if any(v[1] for v in ctx.violations) and not os.path.exists(common.driver_bin(PROP)):
         return ctx.finish(res, trusted=common.TRUSTED_COMMON)
     rng = ctx.rng
-    stats = {"histories": 0, "ops": 0, "clean": 0, "wild": 0, "nonlocal": 0, "op_kinds": {}, "nontrivial": 0,
+    stats = {"histories": 0, "ops": 0, "clean": 0, "wild": 0, "nonlocal": 0, "latebind": 0, "long_name_histories": 0, "op_kinds": {}, "nontrivial": 0,
              "recheck_partial": 0, "oracle_known": 0}
     samples = []
     # 1. corpus
@@ -973,12 +1114,17 @@ def run(ctx):
         for _ in range(min(batch, nh - done)):
             wild = rng.chance(3, 10)
             focus = rng.chance(1, 4)       # the "nonlocal" stream (diagnostics reported into other modules)
-            hs.append(gen_history(rng.fork(), rng.range(2, ctx.scale(12, 16)), wild, focus))
+            if rng.chance(1, 4):           # the "latebind" stream (first use of a name several GC rounds after its declaration)
+                r2 = rng.fork()
+                hs.append(lengthen(gen_latebind(r2, wild), r2))
+            else:
+                hs.append(gen_history(rng.fork(), rng.range(2, ctx.scale(12, 16)), wild, focus))
         done += len(hs)
         results = run_hists(tb, hs)
         for h, (orc, tie) in zip(hs, results):
             stats["histories"] += 1
             stats[h.regime] += 1
+            stats["long_name_histories"] += 1 if getattr(h, "long_names", 0) else 0
             stats["ops"] += len(h.ops)
             for k, v in h.ops:
                 stats["op_kinds"][k] = stats["op_kinds"].get(k, 0) + 1
@@ -1084,7 +1230,8 @@ def run(ctx):
                 "history with >= 2 initial files, >= 2 ops and at least one import edge",
         "samples": samples, "traces_validated_against_impl": stats["histories"],
         "ops_executed": stats["ops"], "op_histogram": stats["op_kinds"],
-        "regimes": {"clean": stats["clean"], "wild": stats["wild"], "nonlocal": stats["nonlocal"]},
+        "regimes": {"clean": stats["clean"], "wild": stats["wild"], "nonlocal": stats["nonlocal"], "latebind": stats["latebind"]},
+        "histories_with_identifiers_of_16_bytes_or_more": stats["long_name_histories"],
         "real_checker_calls_evaluated_for_model": tb.evals,
         "frame_hypothesis_pairs_checked": getattr(tb, "frame_pairs", 0),
         "histories_matching_known_findings": stats["oracle_known"],
